@@ -69,7 +69,14 @@ def _pcase(draw):
     return c
 
 
-def strategy(tier):
+STRATA = {'variance': 3, 'pipeline': 1}
+
+
+def strategy(tier, part=None):
+    if part == 'variance':
+        return _vcase().map(lambda c: dict(c, part='variance'))
+    if part == 'pipeline':
+        return _pcase()
     return st.one_of(_vcase().map(lambda c: dict(c, part='variance')), _vcase().map(lambda c: dict(c, part='variance')),
                      _vcase().map(lambda c: dict(c, part='variance')), _pcase())
 
